@@ -19,6 +19,7 @@ package clientcredentials
 import (
 	"context"
 	"crypto/sha256"
+	"encoding/binary"
 	"encoding/hex"
 	"io"
 	"net/http"
@@ -96,6 +97,16 @@ func (c *Config) calculateCacheKey() string {
 	digest.Write(stringx.ToBytes(c.ClientSecret))
 	digest.Write(stringx.ToBytes(c.TokenURL))
 	digest.Write(stringx.ToBytes(strings.Join(c.Scopes, " ")))
+
+	// the ttl can be redefined on the rule level. An entry stored with a longer ttl
+	// must not be used beyond a shorter ttl configured for another rule
+	if c.TTL != nil {
+		const int64BytesCount = 8
+
+		ttlBytes := make([]byte, int64BytesCount)
+		binary.LittleEndian.PutUint64(ttlBytes, uint64(*c.TTL))
+		digest.Write(ttlBytes)
+	}
 
 	return hex.EncodeToString(digest.Sum(nil))
 }
